@@ -75,6 +75,8 @@ def _replay_blocks(blocks):
     for b in blocks:
         st = parse_state(b.strip())
         fed = st['fed']
+        if len(fed) < 2:
+            continue
         n += 1
         v, d = check_against_definition(fed, st['def4'], st['oF'], st['o3'])
         viol += v
